@@ -36,9 +36,13 @@ OpsViol(r) ==
       same == oldR = newR
       nodl == r.fuel = -2
       \* oracles that are quadratic in the input size are only evaluated up to fixed sizes
-      lcsOk == N <= 4000 /\ M <= 4000 /\ N * M <= 400000
+      small == N <= 4000 /\ M <= 4000 /\ N * M <= 400000
+      \* larger inputs are judged when no item repeats on either side and few items are common
+      distinct == ~small /\ N <= 20000 /\ M <= 20000 /\ AllDistinct(oldR) /\ AllDistinct(newR)
+                  /\ Cardinality({oldR[i] : i \in 1..N} \cap {newR[j] : j \in 1..M}) <= 300
+      lcsOk == small \/ distinct
       anchOk == N + M <= 800
-      L == LcsLen(oldR, newR)
+      L == IF small THEN LcsLen(oldR, newR) ELSE LcsLenDistinct(oldR, newR)
   IN (IF valid THEN {} ELSE {"valid"})
      \cup (IF valid /\ ~ApplyOk(r.old, r.new, r.os, r.oe, r.ns, r.ne, ops) THEN {"apply"} ELSE {})
      \cup (IF same /\ (\E i \in 1..Len(ops) : ~IsEqual(ops[i])) THEN {"identical"} ELSE {})
